@@ -194,6 +194,16 @@ def coq_make(targets, timeout=1500):
     with locked('coq'):
         mk = os.path.join(COQ, 'Makefile')
         proj = os.path.join(COQ, '_CoqProject')
+        # _CoqProject lists every .v under coq/ and coq/gen/ (kept in sync automatically)
+        vs = sorted(f for f in os.listdir(COQ) if f.endswith('.v'))
+        gd = os.path.join(COQ, 'gen')
+        if os.path.isdir(gd):
+            vs += sorted('gen/' + f for f in os.listdir(gd) if f.endswith('.v'))
+        want = '-Q . HexVerif\n' + '\n'.join(vs) + '\n'
+        if not os.path.exists(proj) or open(proj).read() != want:
+            with open(proj + '.tmp', 'w') as f:
+                f.write(want)
+            os.rename(proj + '.tmp', proj)
         if not os.path.exists(mk) or os.path.getmtime(mk) < os.path.getmtime(proj):
             rc, out = sh('coq_makefile -f _CoqProject -o Makefile', cwd=COQ, timeout=60)
             if rc != 0:
